@@ -3,6 +3,7 @@ CONSTANTS
   MaxLen = 2
   SortedLen = 0
   NoForeignLen = 3
+  OneSided = "kept"
   MatchGuard = "any_mapping"
   ClipCheck = "raise"
   Optimised = FALSE
